@@ -88,6 +88,7 @@ def judge_c03(sh, ci, case, ref, ctx):
         c = ci.configs[i]
         sh.evals += 1
         shadow_bad(sh, ci, i, st)
+        sem.closure_check(sh, ci, i, st)
         if st["rc"] != 0 or st.get("root", -1) == -1 or st["err"]:
             sh.count("not_judged_recognition_differs")
             continue
@@ -145,6 +146,7 @@ def judge_c04(sh, ci, case, ref, ctx):
         c = ci.configs[i]
         sh.evals += 1
         shadow_bad(sh, ci, i, st)
+        sem.closure_check(sh, ci, i, st)
         if st["rc"] != 0 or st.get("root", -1) == -1 or st["err"]:
             sh.count("not_judged_recognition_differs")
             continue
@@ -246,8 +248,9 @@ def _worker(args):
         ref = refs[gi] = oracle.Ref(g)
         ins = gen.inputs_for(rng, g, 4, 16, maxlen)
         sents = [w for w in ins if ref.sentence(w)]
-        if len(sents) > n_inputs:
-            sents = rng.sample(sents, n_inputs)
+        lim = n_inputs * 3 if getattr(g, "input_gen", None) is not None else n_inputs
+        if len(sents) > lim:
+            sents = rng.sample(sents, lim)
         for w in sents:
             cases.append((gi, sem.CaseInfo(cid, g, strict, w, configs, name)))
             cid += 1
@@ -278,22 +281,22 @@ def _worker(args):
 
 PARAMS = {
     # pid: (configs, quick(shards, grammars, maxlen, inputs), thorough(...), rule, floor)
-    "C02": (cfgs(recs=(0, 1), amodes=(2, 1)), (16, 60, 10, 14), (64, 90, 14, 24),
+    "C02": (cfgs(recs=(0, 1), amodes=(2, 1)), (16, 60, 10, 14), (192, 90, 14, 24),
             "sentences of pool/random/mutated accepted grammars with random translation specs (permuted, partial, "
             "NIL-padded, pass-through, empty, `# -'), one_parse=1, cost=0, lookahead 0..2, recovery on/off, with and "
             "without parse_free; the dumped tree must be a member of the reference translation set. Non-trivial = "
             "distinct (grammar,input,configuration) whose grammar has a permuted/partial/NIL-padded translation or a "
             "pass-through of a nullable symbol and whose tree has >=3 nodes.", 300),
-    "C03": (cfgs(ones=(0,)), (16, 90, 9, 16), (64, 120, 12, 24),
+    "C03": (cfgs(ones=(0,)), (16, 90, 9, 16), (320, 120, 12, 24),
             "sentences of pool/random/mutated accepted grammars, one_parse=0, cost=0, lookahead 0..2; the set of "
             "trees denoted by the dumped DAG is compared with the reference translation set (cap 3000 trees). "
             "Non-trivial = distinct (grammar,input,lookahead) with >=2 reference translations.", 300),
-    "C04": (cfgs(ones=(1, 0), costs=(1,), amodes=(2, 1)), (16, 70, 9, 14), (64, 100, 12, 22),
+    "C04": (cfgs(ones=(1, 0), costs=(1,), amodes=(2, 1)), (16, 70, 9, 14), (256, 100, 12, 22),
             "as C03 with random costs 0..9 (ties and zeros included) and cost_flag=1, one_parse in {0,1}, with and "
             "without parse_free; denoted set must equal (one_parse: be a member of) the arg-min-cost subset of the "
             "reference translations, cost fields must be additive, root cost must be the minimum. Non-trivial = "
             "distinct (grammar,input,configuration) with >=2 translations of >=2 distinct total costs.", 300),
-    "C05": (sem.ALL_CONFIGS, (16, 50, 10, 14), (64, 80, 13, 22),
+    "C05": (sem.ALL_CONFIGS, (16, 50, 10, 14), (192, 80, 13, 22),
             "sentences of pool/random/mutated accepted grammars under all 24 configurations; *ambiguous_p compared "
             "with the reference derivation count (saturated at 2) and translation count. Non-trivial = distinct "
             "(grammar,input) sentences of grammars that have both an ambiguous and an unambiguous sentence in the "
@@ -306,9 +309,8 @@ def check(pid, tier):
     configs, q, t, rule, floor = PARAMS[pid]
     shards, n_grammars, maxlen, n_inputs = q if tier == "quick" else t
     variants = ["asan"] * shards
-    if tier == "thorough":
-        for i in range(0, shards, 4):
-            variants[i] = "asan-small"
+    for i in range(3, shards, 4 if tier == "thorough" else 8):
+        variants[i] = "asan-small"
     jobs = [(pid, ck.seed, i, n_grammars, maxlen, n_inputs, variants[i], configs) for i in range(shards)]
     res = core.pmap(_worker, jobs)
     sem.merge(ck, res)
